@@ -228,24 +228,56 @@ pub fn shard_run(prop: &str, tier: &str, seed: u64, replay: Option<&serde_json::
         cov.count("sequential_reference_runs", oracle.seq_runs);
     }
     // ---- uncontrolled stress (E2s): OS-chosen interleavings, also inside SQLite and between processes
+    if replay.is_none() && prop == "C11" {
+        use crate::stress::{self, Mode};
+        let plan = [(Mode::LibSqlitePerThread, 8usize, 150usize), (Mode::LibSqliteShared, 8, 150), (Mode::LibMem, 8, 300)];
+        for (i, (mode, threads, ops)) in plan.iter().enumerate() {
+            if !shard.mine(i + 5) {
+                continue;
+            }
+            let so = stress::run_weighted(*mode, *threads, *ops, seed.wrapping_add(40 + i as u64), false, [20, 5, 35, 40]);
+            if let Some(e) = so.error {
+                out.errors.push(format!("stress {mode:?}: {e}"));
+                continue;
+            }
+            cov.evaluations += so.recs.len() as u64;
+            cov.count("stress_requests", so.recs.len() as u64);
+            cov.hit(format!("snapshot-stress|{mode:?}"));
+            if let Err(m) = stress::check_snapshots(&so) {
+                out.found.push(Found { property: "C11".into(), msg: format!("snapshot-heavy stress {mode:?} ({threads} threads x {ops} requests): {m}"), signature: format!("C11:stress {}", m.split_whitespace().take(6).collect::<Vec<_>>().join(" ")), replay: json!({"origin": "stress", "case": i}) });
+                out.cov = cov;
+                return out;
+            }
+        }
+    }
     if replay.is_none() && prop == "C03" {
         use crate::stress::{self, Mode};
-        let plan: Vec<(Mode, usize, usize, bool)> = if thorough {
+        const MIXED: [u32; 4] = [50, 20, 15, 15];
+        const SNAPSHOTS: [u32; 4] = [20, 5, 35, 40];
+        let plan: Vec<(Mode, usize, usize, bool, [u32; 4])> = if thorough {
             let mut v = vec![];
             for rep in 0..5 {
                 for m in [Mode::LibMem, Mode::LibSqliteShared, Mode::LibSqlitePerThread, Mode::SocketMem, Mode::TwoProcesses] {
-                    v.push((m, 8 + (rep % 2) * 4, if m == Mode::LibMem { 600 } else { 150 }, rep % 2 == 1));
+                    v.push((m, 8 + (rep % 2) * 4, if m == Mode::LibMem { 600 } else { 150 }, rep % 2 == 1, if rep % 3 == 2 { SNAPSHOTS } else { MIXED }));
                 }
             }
             v
         } else {
-            vec![(Mode::LibSqlitePerThread, 6, 50, true), (Mode::LibMem, 8, 200, true), (Mode::SocketMem, 6, 60, false), (Mode::TwoProcesses, 6, 40, true)]
+            vec![
+                (Mode::LibSqlitePerThread, 6, 50, true, MIXED),
+                (Mode::LibMem, 8, 200, true, MIXED),
+                (Mode::SocketMem, 6, 60, false, MIXED),
+                (Mode::TwoProcesses, 6, 40, true, MIXED),
+                (Mode::LibSqlitePerThread, 8, 150, false, SNAPSHOTS),
+                (Mode::LibSqliteShared, 8, 150, false, SNAPSHOTS),
+                (Mode::LibMem, 8, 300, false, SNAPSHOTS),
+            ]
         };
-        for (i, (mode, threads, ops, newc)) in plan.iter().enumerate() {
+        for (i, (mode, threads, ops, newc, weights)) in plan.iter().enumerate() {
             if !shard.mine(i + 3) {
                 continue;
             }
-            let so = stress::run(*mode, *threads, *ops, seed.wrapping_add(i as u64), *newc);
+            let so = stress::run_weighted(*mode, *threads, *ops, seed.wrapping_add(i as u64), *newc, *weights);
             if let Some(e) = so.error {
                 out.errors.push(format!("stress {mode:?}: {e}"));
                 continue;
@@ -254,7 +286,7 @@ pub fn shard_run(prop: &str, tier: &str, seed: u64, replay: Option<&serde_json::
             cov.count("stress_requests", so.recs.len() as u64);
             cov.count("stress_overlapping_request_pairs", so.overlapping_pairs);
             cov.count("stress_accepted_versions", so.chains.iter().map(|c| c.len() as u64).sum());
-            cov.hit(format!("stress|{mode:?}|threads={threads}|new-clients={newc}"));
+            cov.hit(format!("stress|{mode:?}|threads={threads}|new-clients={newc}|{}", if weights[3] > 30 { "snapshot-heavy" } else { "mixed" }));
             if let Err(m) = stress::check(&so, 4_500_000_000) {
                 out.found.push(Found {
                     property: "C03".into(),
